@@ -2,7 +2,7 @@
 from checks import symgen
 
 ID = 'C01'
-PROP_MODULES = ['QRV.Props.C01', 'QRV.Props.C01RMQR', 'QRV.Props.C01Micro']
+PROP_MODULES = ['QRV.Props.C01', 'QRV.Props.C01RMQR', 'QRV.Props.C01Micro', 'QRV.Props.C01MicroWeak']
 RULE = ('every (version, level) pair of the three symbologies (160 + 8 + 64) with explicit masks rotating with the seed and automatic masking, x structured segment '
         'lists: exact-capacity fills with 0-9 spare bits (every terminator / pad-alignment case), fills whose terminator ends on a codeword boundary, maximum '
         'character counts per mode, single-mode maxima and maxima-1, mixed-mode lists, mode changes at v9/10 and v26/27, Micro QR M1/M3 half-codeword symbols. '
